@@ -18,7 +18,49 @@ def make_case(rng, i):
     return case
 
 
-def run_dataset(ctx, prop, case, via='function', index=0, reference=None, kinds=('rise', 'recession'), nontrivial=None):
+def repeat_steps(ctx, prop, case, connection, db, via, kinds, index):
+    """Multi-step session: after the curves are assembled, the user changes
+    the grid step and runs rise / recession again.  Whether spowtd refuses or
+    accepts the repeated commands, the tables must still satisfy the walker."""
+    import sqlite3
+    import spowtd.zeta_grid as zg
+    from . import data
+
+    rec = ctx.rec
+    rng = ctx.rng('session', index)
+    new_gs = case.get('grid_step', 1.0) * rng.choice([2.0, 0.5, 3.0])
+    log = []
+    if via == 'cli':
+        connection.close()
+        status, exc = data.cli(['set-zeta-grid', db, '-d', repr(float(new_gs))])
+        log.append(('set-zeta-grid', 'refused' if (exc is not None or status != 0) else 'accepted'))
+        for kind in kinds:
+            exc = curves_common.run_curve(None, kind, None, db)
+            log.append((kind, 'refused' if exc is not None else 'accepted'))
+        connection = sqlite3.connect(db)
+    else:
+        try:
+            zg.populate_zeta_grid(connection, new_gs)
+            connection.commit()
+            log.append(('set-zeta-grid', 'accepted'))
+        except Exception:  # pylint: disable=broad-except
+            connection.rollback()
+            log.append(('set-zeta-grid', 'refused'))
+        for kind in kinds:
+            exc = curves_common.run_curve(connection, kind)
+            log.append((kind, 'refused' if exc is not None else 'accepted'))
+    rec.hit('sessions-with-repeated-steps')
+    for step, outcome in log:
+        rec.hit('repeated-{}-{}'.format(step, outcome))
+    for kind in kinds:
+        findings, stats = oracle_curves.walk_curve(connection, kind, None, None)
+        for p, k, w in findings:
+            if p == prop:
+                rec.violation('after-repeated-steps:' + k, dict(w, session=log), dict(case, session=True), 'dataset')
+    return connection
+
+
+def run_dataset(ctx, prop, case, via='function', index=0, reference=None, kinds=('rise', 'recession'), nontrivial=None, session=False):
     """Returns dict kind -> (findings, stats) for the curves that assembled"""
     rec = ctx.rec
     rec.case()
@@ -79,6 +121,8 @@ def run_dataset(ctx, prop, case, via='function', index=0, reference=None, kinds=
                 rec.sample({'generator': case.get('kind'), 'curve': kind, 'step_s': case['step'], 'grid_step_mm': case.get('grid_step'),
                             'n_steps': len(case['rain']), 'intervals_in_curve': stats.get('intervals-in-curve'),
                             'levels': stats.get('n_levels'), 'components': stats.get('components')})
+        if session and len(out) == len(kinds):
+            connection = repeat_steps(ctx, prop, case, connection, db, via, kinds, index)
     finally:
         connection.close()
     return out
